@@ -8,6 +8,7 @@ import (
 	"go/token"
 	"go/types"
 	"sort"
+	"strings"
 
 	"golang.org/x/tools/go/ssa"
 )
@@ -69,7 +70,7 @@ func candidateInvariants(ctx *Ctx, fn *ssa.Function) []*Clause {
 			if !ok || v.IsField() || id.Pos() < syn.Pos() || id.Pos() > syn.End() || id.Name == "_" {
 				continue
 			}
-			if ti, ok := ctx.typeInv[typeKeyFull(v.Type())]; ok && !seenTV[id.Name] {
+			if ti, ok := ctx.typeInv[typeKeyFull(v.Type())]; ok && !seenTV[id.Name] && !strings.HasPrefix(ti[1], "?") {
 				seenTV[id.Name] = true
 				tvars = append(tvars, tv{id.Name, ti[1]})
 			}
@@ -93,9 +94,22 @@ func candidateInvariants(ctx *Ctx, fn *ssa.Function) []*Clause {
 		}
 		sort.Strings(sliceVars)
 	}
+	// result-free ensures clauses of schema contracts are candidates at every loop (they speak about the parameters only)
+	var schemaCands []string
+	for _, sch := range ctx.schemasFor(fn) {
+		for _, en := range sch.C.Ensures {
+			t := strings.TrimSpace(strings.TrimPrefix(strings.TrimSpace(en.Text), "result1 == nil ==>"))
+			if !strings.Contains(t, "result") {
+				schemaCands = append(schemaCands, t)
+			}
+		}
+	}
 	addTV := func(loop int, pos token.Pos) {
 		for _, v := range tvars {
 			add(loop, fmt.Sprintf("%s(%s)", v.pred, v.name), pos)
+		}
+		for _, t := range schemaCands {
+			add(loop, t, pos)
 		}
 	}
 	// cursor templates: integer variables assigned in the loop body stay within [0, len(s)]
